@@ -943,9 +943,10 @@ def _cands(case):
 # ----------------------------------------------------------------------------------------
 IMPORTS_SRC = IMPORTS + "From PV Require C20.SrcRun.\n"
 SRC_TIE_CAP = 600
-SRC_THEOREMS = ["c20_source_forward_is_model", "c20_source_forward_rejects", "c20_source_check_input_is_legal",
-                "c20_source_dot_score_is_model", "c20_source_general_score_is_model",
-                "c20_source_attention_in_kept_range", "c20_source_attention_blind_to_masked"]
+SRC_THEOREMS = ["c20_source_forward_is_model", "c20_source_forward_any_score", "c20_source_general_forward_is_model",
+                "c20_source_attention_in_kept_range", "c20_source_attention_blind_to_masked",
+                "c20_source_general_in_kept_range", "c20_source_forward_rejects_rank", "c20_source_forward_rejects_dim",
+                "c20_source_forward_rejects_bcast"]
 
 
 def _src_tie_eligible(case):
